@@ -193,6 +193,13 @@ def enabled_events(tracks, w, kinds=None):
                     if tid >= nxt and force:
                         continue
                     ev.append(("add_node", nid, t, tid, force, "ok", pix))
+        if w["seg"]:
+            # computed features handed in together with the pixels (as the inverse of a node
+            # deletion does): the annotators must still measure the mask
+            for t in (0, 2):
+                pix = _block_bg(tracks, t)
+                if pix is not None:
+                    ev.append(("add_node", nid, t, nxt, False, "stale_attrs", pix))
         # refusal inputs
         pix0 = _block_bg(tracks, 1) if w["seg"] else None
         ev.append(("add_node", nid, 1, nxt, False, "no_time", pix0))
@@ -201,6 +208,10 @@ def enabled_events(tracks, w, kinds=None):
             for tid in cand_tids[:3]:
                 ev.append(("add_node", nid, 1, tid, True, "no_pos", None))
                 ev.append(("add_node", nid, 2, tid, False, "no_pos", None))
+                if w["pos"] == "axes":
+                    # only one of the per-axis position keys is given
+                    ev.append(("add_node", nid, 1, tid, True, "part_pos", None))
+                    ev.append(("add_node", nid, 2, tid, False, "part_pos", None))
         if nodes:
             ev.append(("add_node", nodes[0], 1, nxt, False, "ok", pix0))
     if want("swap"):
@@ -384,6 +395,11 @@ def apply_event(tracks, w, ev, restore_on_refusal=True) -> Outcome:
             if variant == "no_tid":
                 del attrs[tracks.features.tracklet_key]
             pixels = None
+            if variant == "stale_attrs":
+                for k in tracks.annotators.features:
+                    feat = tracks.annotators.all_features[k][0]
+                    if feat["feature_type"] == "node" and k not in (tracks.features.tracklet_key, tracks.features.lineage_key):
+                        attrs[k] = [0.0] * feat["num_values"] if feat["num_values"] > 1 else 999.0
             if w["seg"] and pix is not None:
                 pixels = (np.full(len(pix[0]), t, dtype=np.int64), *[np.array(a, dtype=np.int64) for a in pix])
             elif variant != "no_pos":
@@ -392,6 +408,8 @@ def apply_event(tracks, w, ev, restore_on_refusal=True) -> Outcome:
                 if isinstance(pk, list):
                     for k, v in zip(pk, p):
                         attrs[k] = v
+                        if variant == "part_pos":
+                            break
                 else:
                     attrs[pk] = p
             return UserAddNode(tracks, nid, attrs, pixels=pixels, force=force)
